@@ -161,7 +161,20 @@ ClashProgs == {P1(ClashNum(c) \o ClashStr(c)) : c \in Clash} \cup {P1(ClashStr(c
               \cup {P1(<<SInfer("s", EStr(c.cp)), SInfer("cnt", Num(0)), SFor("", "str", <<EVar("s", T_str)>>, <<SAsg(EVar("cnt", T_num), EBin("+", EVar("cnt", T_num), Num(1)))>>),
                           SFor("e", "arr", <<EArr(<<ENum(c.n), ENum(c.n)>>)>>, <<SAsg(EVar("cnt", T_num), EBin("+", EVar("cnt", T_num), EVar("e", T_num)))>>)>>) : c \in Clash}
 
+\* a loop variable is a variable of the for statement: one with the name of a variable outside the loop leaves that
+\* variable alone (all four kinds of range; the outer variable read in the loop header, in the body, after the loop)
+LoopShadow ==
+  LET K == EVar("k", T_num)   KS == EVar("k", T_str)   A == EVar("acc", T_num)   SA == EVar("sacc", T_str)
+  IN { P1(<<SInfer("k", Num(5)), SInfer("acc", Num(0)), SFor("k", "num", <<Num(3)>>, <<SAsg(A, EBin("+", A, K))>>), SInfer("r", K)>>),
+       P1(<<SInfer("k", Num(5)), SInfer("acc", Num(0)), SFor("k", "arr", <<EArr(<<Num(7), Num(8)>>)>>, <<SAsg(A, EBin("+", A, K))>>), SInfer("r", K)>>),
+       P1(<<SInfer("k", EStr(<<122>>)), SInfer("sacc", EStr(<<>>)), SFor("k", "str", <<EStr(<<97, 98>>)>>, <<SAsg(SA, EBin("+", SA, KS))>>), SInfer("r", KS)>>),
+       P1(<<SInfer("k", EStr(<<122>>)), SInfer("sacc", EStr(<<>>)), SFor("k", "map", <<EMap(<<<<97>>, <<98>>>>, <<Num(1), Num(2)>>)>>, <<SAsg(SA, EBin("+", SA, KS))>>), SInfer("r", KS)>>),
+       P1(<<SInfer("k", Num(5)), SInfer("acc", Num(0)),
+            SIf(<<EBool(TRUE)>>, <<<<SFor("k", "num", <<Num(2)>>, <<SAsg(A, EBin("+", A, K))>>), SAsg(A, EBin("+", EBin("*", A, Num(10)), K))>>>>, <<>>), SInfer("r", K)>>),
+       P1(<<SInfer("acc", Num(0)), SFor("k", "num", <<Num(2)>>, <<SFor("k", "num", <<Num(3)>>, <<SAsg(A, EBin("+", A, K))>>), SAsg(A, EBin("+", EBin("*", A, Num(10)), K))>>)>>) }
+
 FamCases == {MkCase("FamCompile", "expr", R(e)) : e \in Exprs \cup ArrExprs} \cup {MkCase("FamCompile", "constant-clash", p) : p \in ClashProgs}
+            \cup {MkCase("FamCompile", "loop-variable-shadows", p) : p \in LoopShadow}
             \cup {MkCase("FamCompile", "index/arr-read", p) : p \in IdxArrRead} \cup {MkCase("FamCompile", "index/str-read", p) : p \in IdxStrRead}
             \cup {MkCase("FamCompile", "index/ascii-read", p) : p \in IdxAsciiRead} \cup {MkCase("FamCompile", "index/arr-store", p) : p \in IdxArrStore}
             \cup {MkCase("FamCompile", "index/arr-slice", p) : p \in IdxArrSlice} \cup {MkCase("FamCompile", "index/str-slice", p) : p \in IdxStrSlice}
